@@ -94,6 +94,18 @@ check("C17", "exploration",
       "Trusted: the exact-summation stub (bex/stubs/exafmm, independent of fmm/helpers.py). Says nothing about a real FMM's accuracy.",
       "exhaustive sweep over operator x space x option tuples against the dense-mode reference with an exact far-field stub")
 
+check("C18", "model_checking",
+      "Explicit-state BFS over histories of real API calls {create, create+assemble, observe, strong_form, set global quadrature, set "
+      "global FMM order, mutate an explicit parameter object, clear_fmm_cache, new spaces, mass_matrix} on two operator slots, from the "
+      "pristine state and from a state with non-default globals, depth 3 (quick) / 4 (thorough); every transition replays the history "
+      "on fresh real objects after reset(); states are de-duplicated by the reference model's state (globals, parameter values, slot "
+      "facts, predicted cache contents); every observation must equal the table of what a fresh interpreter computes (two fresh "
+      "interpreters, opposite orders, must agree); repeated weak_form()/mass_matrix() must return the identical object.",
+      "DESIGN.md 4/C18 and B.4",
+      "Trusted: the inventory of process-wide mutable state (DESIGN 2) as the argument that the canonical form merges only states with "
+      "equal futures; lenient reading of 'parameter object given at construction' (values at construction or at first assembly).",
+      "explicit-state search over API-call histories with replay on fresh objects against a fresh-interpreter oracle")
+
 ALL = ["C%02d" % i for i in range(1, 21)]
 
 
